@@ -73,7 +73,7 @@ type Run struct {
 	rule     string
 	nonExh   []string
 
-	states, transitions, traces int64
+	states, transitions, traces atomic.Int64
 
 	replays  map[string]ReplayFn
 	viols    map[string]*recorded // by signature
@@ -183,9 +183,9 @@ func (r *Run) RegisterReplay(kind string, fn ReplayFn) { r.replays[kind] = fn }
 func (r *Run) SetRule(s string)       { r.rule = s }
 func (r *Run) Assume(s ...string)     { r.assume = append(r.assume, s...) }
 func (r *Run) Set(key string, v any)  { r.mu.Lock(); r.extra[key] = v; r.mu.Unlock() }
-func (r *Run) AddStates(n int64)      { atomic.AddInt64(&r.states, n) }
-func (r *Run) AddTransitions(n int64) { atomic.AddInt64(&r.transitions, n) }
-func (r *Run) AddTraces(n int64)      { atomic.AddInt64(&r.traces, n) }
+func (r *Run) AddStates(n int64)      { r.states.Add(n) }
+func (r *Run) AddTransitions(n int64) { r.transitions.Add(n) }
+func (r *Run) AddTraces(n int64)      { r.traces.Add(n) }
 func (r *Run) Evals() int64           { return r.evals.Load() }
 
 // Note records harness-side trouble; it never changes the verdict.
@@ -392,9 +392,9 @@ func (r *Run) Finish() {
 		cov["harness_notes"] = r.notes
 	}
 	if r.Level == "model_checking" {
-		cov["states"] = r.states
-		cov["transitions"] = r.transitions
-		cov["traces_validated_against_impl"] = r.traces
+		cov["states"] = r.states.Load()
+		cov["transitions"] = r.transitions.Load()
+		cov["traces_validated_against_impl"] = r.traces.Load()
 	}
 	cov["gomaxprocs"] = runtime.GOMAXPROCS(0)
 
@@ -450,7 +450,7 @@ func (r *Run) Finish() {
 		fmt.Fprintln(os.Stderr, "cannot write evidence:", err)
 	}
 	fmt.Printf("%s %s: evaluations=%d distinct_nontrivial=%d outcomes=%d states=%d transitions=%d exhaustive=%v violations=%d known=%d wall=%.1fs\n",
-		r.Prop, r.Tier, r.evals.Load(), nd, len(r.outcomes), r.states, r.transitions, len(r.nonExh) == 0, len(r.viols), len(ks), wall)
+		r.Prop, r.Tier, r.evals.Load(), nd, len(r.outcomes), r.states.Load(), r.transitions.Load(), len(r.nonExh) == 0, len(r.viols), len(ks), wall)
 	if len(r.nonExh) > 0 {
 		fmt.Println("not exhaustive:", strings.Join(r.nonExh, "; "))
 	}
